@@ -190,6 +190,8 @@ _NUMATTR = re.compile(rb'([\w:.\-]+)="(\d+)"')
 _ATTR = re.compile(rb'\s([\w:.\-]+)="[^"]*"')
 
 
+NUM_SHAPES = [b"@.5", b"#..5", b".", b"..", b"#.", b".#", b"-", b"+@", b"@e", b"@e999", b"1e-999", b"NaN", b"inf", b"-@", b"#,5", b"0x#", b"\xd9\xa3", b"", b"@ @",
+              b"0", b"-0", b"00000000000000000000#", b"@" + b"0" * 40]
 VARIANT_TYPES = [2, 3, 5, 7, 8, 11, 19, 30, 31, 64, 65, 71, 0x1003, 0x101E, 0]
 
 
@@ -311,6 +313,16 @@ def edit_member(data: bytes, edit: list) -> bytes:
                 v[pos:pos] = b" "
             return data[:m.start(2)] + bytes(v) + data[m.end(2):]
         return data
+    if k == "num_mangle":
+        # an attribute that holds a number (with or without a unit) gets a malformed number of a shape lenient parsers trip over
+        ms = [m for m in re.finditer(rb'([\w:.\-]+)="(-?\d[\d.]*)([a-zA-Z%]*)"', data)]
+        if ms:
+            m = ms[edit[1] % len(ms)]
+            num, unit = m.group(2), m.group(3)
+            shape = NUM_SHAPES[edit[2] % len(NUM_SHAPES)]
+            new = shape.replace(b"@", num).replace(b"#", num.split(b".")[0] or b"0")
+            return data[:m.start(2)] + new + unit + data[m.end(3):]
+        return data
     if k == "u16" or k == "u32":
         w = 2 if k == "u16" else 4
         if len(data) >= w:
@@ -324,7 +336,9 @@ def edit_member(data: bytes, edit: list) -> bytes:
 def gen_edit(rng, data: bytes) -> list:
     is_xml = data[:200].lstrip()[:1] == b"<"
     if is_xml and rng.random() < 0.75:
-        k = rng.choice(["xml_del", "xml_del", "xml_dup", "xml_nest", "num_attr", "num_attr", "del_attr", "xml_empty", "attr_mangle", "attr_mangle"])
+        k = rng.choice(["xml_del", "xml_del", "xml_dup", "xml_nest", "num_attr", "num_attr", "del_attr", "xml_empty", "attr_mangle", "attr_mangle", "num_mangle", "num_mangle"])
+        if k == "num_mangle":
+            return ["num_mangle", rng.randrange(1 << 20), rng.randrange(1 << 10)]
         if k == "xml_empty":
             return ["xml_empty", rng.randrange(1 << 20)]
         if k == "attr_mangle":
